@@ -199,9 +199,9 @@ def run(ctx):
     n = ctx.count(700)
     run_read_failures(ctx, n)
     run_max_count(ctx, ctx.count(60))
-    cases = [sg.gen_case(rng) for _ in range(n)]
+    cases = sg.regress_cases() + [sg.gen_case(rng) for _ in range(n)]
     run_kind(ctx, 301, cases, "slice")
-    ml = [sg.gen_case(rng, multi_line=True) for _ in range(n // 2)]
+    ml = sg.regress_cases(True) + [sg.gen_case(rng, multi_line=True) for _ in range(n // 2)]
     run_kind(ctx, 301, ml, "multiline")
     ctx.cov["rule"] = ("every case = (searcher case, sink call index k, Stop|Fail); k ranges over all calls of short "
                        "runs and begin/last/random calls of long runs; all are non-trivial")
